@@ -95,7 +95,13 @@ def distances(prog):
             out[mi.rel] = None
             continue
         cur = statements(mi.tree)
-        out[mi.rel] = sum(((cur - r) + (r - cur)).values())
+        d = sum(((cur - r) + (r - cur)).values())
+        pre = getattr(mi, "stmts_before_unextraction", None)
+        if pre is not None:
+            # helpers spliced back into their callers (alpha.inline_new_helpers) may bring the module closer to the reference
+            # or, through fresh names, further from it: the smaller of the two distances counts
+            d = min(d, sum(((pre - r) + (r - pre)).values()))
+        out[mi.rel] = d
     try:
         prog._refdist = out
     except AttributeError:
